@@ -283,7 +283,7 @@ def _c08(tier):
 
 plan('C08', jobs=_c08,
      rule='A case is one operation (union, intersection, difference, symmetric_difference walked at EVERY consumption prefix with size_hint / count / fold / Debug probes on clones; difference_ref; `&a - &b`; is_subset / is_superset / is_disjoint) on one ordered pair of sets (A, B). Pairs: ALL ordered arrangements of all subsets of a 4-class universe for both operands (65 x 65 layouts when both capacities are >= 4) for the capacity pairs (4,4) (4,8) (8,4) (0,0) (0,4) (4,0) (1,2) (2,1) (2,4) (4,2) (3,3) (5,4); thorough adds the 5-class universe (326 x 326) for (5,5) and (5,8); random pairs for capacities up to 32 on top. A pair is non-trivial when at least one operand is non-empty; distinct pairs are counted by (N, M, both slot orders).',
-     required=['union', 'intersection', 'difference', 'symmetric_difference', 'difference_ref', 'sub', 'is_subset:true', 'is_subset:false',
+     required=['zst', 'union', 'intersection', 'difference', 'symmetric_difference', 'difference_ref', 'sub', 'is_subset:true', 'is_subset:false',
                'is_superset:true', 'is_superset:false', 'is_disjoint:true', 'is_disjoint:false', 'random-pair'],
      exhaustive_subspace='all ordered layout pairs over a 4-class universe (thorough: 5-class) for the listed capacity pairs, every consumption prefix of every lazy iterator',
      title='set algebra',
@@ -306,7 +306,7 @@ def _c13(tier):
 
 plan('C13', jobs=_c13,
      rule='A case is one call of get_disjoint_mut with one key tuple on one map state. States: ALL ordered arrangements of all subsets of a 4-class universe that fit N, for N in {0,1,2,3,4,8}. Tuples: ALL tuples of length J = 0..=4 over the five keys {1,2,3,4, an always-absent key} (present and absent keys, with and without repeats, every order), each given once in the borrowed form and once as keys; random maps with N in {8,16} and tuples of length 5 and 8, and maps with N = 300 (requested keys stored in slots >= 256) with tuples of length 2, 3, 65 and 70 on top. Under Miri: 3-class universe, N in {0,2,3}, J <= 2 (quick) / J <= 3 (thorough). Non-trivial: J >= 1; distinct by (N, slot order, tuple, form).',
-     required=['get_disjoint_mut(q):J=0', 'get_disjoint_mut(q):J=1', 'get_disjoint_mut(q):J=2:ok', 'get_disjoint_mut(q):J=2:panic', 'get_disjoint_mut(q):J=3:ok',
+     required=['zst', 'get_disjoint_mut(q):J=0', 'get_disjoint_mut(q):J=1', 'get_disjoint_mut(q):J=2:ok', 'get_disjoint_mut(q):J=2:panic', 'get_disjoint_mut(q):J=3:ok',
                'get_disjoint_mut(q):J=4:ok', 'get_disjoint_mut(q):J=4:panic', 'get_disjoint_mut(k):J=3:ok', 'get_disjoint_mut(k):J=4:panic', 'get_disjoint_mut(q):J=8', 'random-long-tuple', 'big-map(N=300):slots>=256', 'get_disjoint_mut(q):J=65', 'get_disjoint_mut(k):J=70'],
      exhaustive_subspace='all slot layouts over a 4-class universe for N in {0,1,2,3,4,8} x all key tuples of length 0..=4 over 5 keys x {borrowed form, key}',
      assumptions=NATIVE_ASSUME + SAN_ASSUME,
@@ -360,7 +360,7 @@ def _c14(tier):
 
 plan('C14', jobs=_c14,
      rule='A case is one ordered pair (a, b) of containers, compared as a == b and b == a, and as a != b and b != a. Map states: ALL ordered arrangements of all subsets of a 4-class universe with 2 possible values per class (633 states when the capacity is >= 4); set states: all 65 layouts. Every ordered pair of states is compared for the capacity pairs (4,4) (4,8) (8,4) (2,4) (4,3) (0,4) (4,0) (0,0) (1,1) (2,2) (3,3) for maps and (4,4) (4,8) (8,4) (2,4) (0,3) (1,1) (2,2) (3,3) for sets, with tracked and Copy elements; so pairs differing only in one value, only in one key, only in length, and equal contents in different slot orders all occur by construction (counted per kind in coverage_matrix). Random pairs reached by two different operation histories on top. Non-trivial: at least one operand non-empty.',
-     required=['zst:equal', 'zst:unequal', 'zst-values', 'equal:same-order', 'equal:different-order', 'unequal:one-value', 'unequal:one-key', 'unequal:length', 'unequal:values', 'unequal:keys',
+     required=['zst:equal', 'zst:unequal', 'zst-values', 'big-pair:equal', 'big-pair:unequal', 'equal:same-order', 'equal:different-order', 'unequal:one-value', 'unequal:one-key', 'unequal:length', 'unequal:values', 'unequal:keys',
                'set:equal:different-order', 'set:unequal:one-key', 'set:unequal:length', 'histories:equal', 'histories:unequal'],
      exhaustive_subspace='all ordered pairs of (slot order x values) states over a 4-class universe with 2 values per class, for the listed capacity pairs, Map and Set',
      title='extensional equality',
@@ -382,7 +382,7 @@ def _c16(tier):
 
 plan('C16', jobs=_c16,
      rule='A case is one item sequence through one bulk entry point (Map collect, Map From<[_;N]>, Set collect, Set From<[_;N]>, Set Extend<T> onto an empty / partial / full set, Set Extend<&T>). Sequences: ALL sequences of length 0..=6 (thorough 7) over a 4-class universe for N in {0,1,2,3,4} (every repetition pattern; lengths below, at and above N; fewer, exactly and more than N distinct keys), random sequences of length up to 3N+2 for N in {5,8,16}. Non-trivial: the sequence is non-empty; distinct by (N, sequence, start state).',
-     required=['Map::from_iter:plain', 'Map::from_iter:repeats', 'Map::from_iter:longer-than-N-but-fits', 'Map::from_iter:overflows', 'Map::from(array):repeats',
+     required=['zst', 'Map::from_iter:plain', 'Map::from_iter:repeats', 'Map::from_iter:longer-than-N-but-fits', 'Map::from_iter:overflows', 'Map::from(array):repeats',
                'Set::from_iter:longer-than-N-but-fits', 'Set::from_iter:overflows', 'Set::from(array):repeats', 'Set::extend:repeats:onto-partial',
                'Set::extend:overflows:onto-partial', 'Set::extend:longer-than-N-but-fits:onto-full', 'Set::extend(&T):fits', 'Set::extend(&T):overflows', 'random-sequence'],
      exhaustive_subspace='all item sequences of length 0..=6 over 4 classes for N in 0..=4, every bulk entry point',
